@@ -47,7 +47,7 @@ def run(cx):
     batches.append(("random", rp))
 
     # G: constant classes in every position, scaled shapes (Shapes.tla): compared across repetitions / processes only
-    for fam in (("consts", "scale", "errors", "order") if not cx.quick() else ("scale", "errors", "order")):
+    for fam in (("consts", "scale", "errors", "order", "names") if not cx.quick() else ("scale", "errors", "order", "names")):
         _, sp = langlib.gen_shapes(cx, fam)
         so = cx.path("shapes_%s.cases.ndjson" % fam)
         cx.run([lang, "render", "-in", sp, "-out", so])
